@@ -176,6 +176,11 @@ class Program:
                     for t in st.targets:
                         if isinstance(t, ast.Name):
                             mi.assigns[t.id] = st.value
+                        elif isinstance(t, (ast.Tuple, ast.List)) and isinstance(st.value, (ast.Tuple, ast.List)) \
+                                and len(t.elts) == len(st.value.elts):
+                            for tt, vv in zip(t.elts, st.value.elts):  # A, B = "a", "b"
+                                if isinstance(tt, ast.Name):
+                                    mi.assigns[tt.id] = vv
                 elif isinstance(st, ast.AnnAssign) and isinstance(st.target, ast.Name):
                     if st.value is not None:
                         mi.assigns[st.target.id] = st.value
